@@ -48,25 +48,41 @@ class _RunnableAio(FakeAio):
         super().__init__(venv)
         self._stop = False
         self.deadlock = False
+        self.iteration = 0
 
     def stop(self):
         self._stop = True
 
     def run_forever(self):
+        """asyncio-style iterations (BaseEventLoop._run_once): every timer that is due NOW is appended to the ready
+        queue in (deadline, insertion) order; then exactly the handles that were queued at that moment run (what
+        they schedule with call_soon waits for the next iteration); with an empty queue the clock jumps to the next
+        timer.  stop() takes effect at the end of the iteration."""
         self._stop = False
+        v = self.v
         for _ in range(1000):
-            self.v.run_ready()
-            if self._stop:
-                return
-            live = self.v.pending_timers()
-            if not live:
-                self.deadlock = True
-                return
-            nxt = live[0].when
-            for h in live:
-                if h.when < nxt:
-                    nxt = h.when
-            self.v.advance(nxt - self.v.now if nxt > self.v.now else 0)
+            self.iteration += 1
+            due = [h for h in v.timers if not h.cancelled and h.when <= v.now]
+            due.sort(key=lambda h: (h.when, h.seq))
+            for h in due:
+                v.timers.remove(h)
+                v.ready.append(h)
+            v.timers = [h for h in v.timers if not h.cancelled]
+            if not v.ready:
+                if not v.timers:
+                    self.deadlock = True
+                    return
+                nxt = v.timers[0].when
+                for h in v.timers:
+                    if h.when < nxt:
+                        nxt = h.when
+                if nxt > v.now:
+                    v.now = nxt
+                continue
+            for _i in range(len(v.ready)):
+                h = v.ready.popleft()
+                if not h.cancelled:
+                    v._call(h)
             if self._stop:
                 return
 
@@ -247,6 +263,11 @@ def h_prog(ops: List[Tuple[int, int]]):
         assert not env.v.pending_timers() and not env.v.ready, "work left after quiescence"
 
 
+RUN_FOREVER_STUB = ("run_forever()/stop() of the fake asyncio loop, iteration semantics of asyncio's _run_once: all timers due "
+                    "now are queued in (deadline, insertion) order, then the handles queued at that moment run FIFO, "
+                    "call_soon from inside a handle waits for the next iteration; idle loop jumps to the next timer")
+
+
 def pre_sync(kind: int, tmo: int, d: int) -> bool:
     return 0 <= kind <= 3 and 0 <= tmo <= 3 and 0 <= d <= 3
 
@@ -259,8 +280,7 @@ def pre_sync(kind: int, tmo: int, d: int) -> bool:
     reach=["timeout_raised", "result_returned", "exception_reraised"],
     units=["ioloop.IOLoop.run_sync", "platform.asyncio.BaseAsyncIOLoop.start", "platform.asyncio.BaseAsyncIOLoop.stop",
            "ioloop.IOLoop.add_future", "gen.convert_yielded"],
-    stubs=STUBS + ["run_forever()/stop() of the fake asyncio loop: run ready callbacks, jump the virtual clock to the next "
-                   "timer, until stop()"],
+    stubs=STUBS + [RUN_FOREVER_STUB],
     outside=["run_sync on a real selector loop"],
 )
 def h_run_sync(kind: int, tmo: int, d: int):
@@ -317,3 +337,125 @@ def h_run_sync(kind: int, tmo: int, d: int):
             if not (ct is not None and cd == ct):
                 assert type(exc) is KeyError, "expected KeyError, got %r / %r" % (exc, res)
         assert not px.log.errors, "unexpected error log: %r" % (px.log.errors,)
+
+
+def pre_race(exc: bool, cd: int, ct: int, b0: int, bx: int, b1: int, late: bool) -> bool:
+    return 0 <= cd <= 3 and 1 <= ct <= 3 and 0 <= b0 <= 1 and 0 <= bx <= 2 and 0 <= b1 <= 1 and \
+        in_shard(cd + 4 * (ct - 1))
+
+
+@harness(
+    pre=pre_race,
+    quick=dict(timeout=120, reach_timeout=60),
+    thorough=dict(timeout=300, reach_timeout=60),
+    nshards=12,
+    reach=["finished_and_timeout_callback_ran", "finished_in_same_batch_as_timeout", "timeout_cancels_pending",
+           "timeout_first_equal_deadline", "completion_first_equal_deadline"],
+    units=["ioloop.IOLoop.run_sync (run, timeout_callback, post-loop outcome selection)",
+           "platform.asyncio.BaseAsyncIOLoop.start/stop/call_at/remove_timeout", "ioloop.IOLoop.add_future",
+           "gen.convert_yielded"],
+    stubs=STUBS + [RUN_FOREVER_STUB,
+                   "the function is a coroutine awaiting a future that a timer completes at t0+cd (cd in 0..3); the "
+                   "timer is registered before run_sync (so it precedes the timeout timer at equal deadlines) or, with "
+                   "late=True, inside the coroutine's first step (so it follows it); run_sync timeout ct in 1..3",
+                   "the loop is BLOCKED (virtual clock jumps while a handle runs) by 2*b0 s in the coroutine's first step, "
+                   "bx s in a handle queued right behind the completion timer, 2*b1 s in the coroutine's last step - this "
+                   "is how completion and the timeout callback become due in one loop iteration, in either order"],
+    outside=["run_sync without timeout (h_run_sync)", "functions that ignore cancellation"],
+)
+def h_run_sync_race(exc: bool, cd: int, ct: int, b0: int, bx: int, b1: int, late: bool):
+    """run_sync(timeout) when completion and the timeout callback race: a function that COMPLETED keeps its result /
+    exception (never replaced by TimeoutError); TimeoutError only together with a cancelled, unfinished function and
+    never before the deadline."""
+    with _Patched() as px:
+        loop, aio, env = px.loop, px.aio, px.env
+        v = env.v
+        st = dict(finished=None, cancelled=None, fin_iter=None, tmo_iter=None, tmo_at=None)
+        c_d = 0 if cd == 0 else 1 if cd == 1 else 2 if cd == 2 else 3
+        c_t = 1 if ct == 1 else 2 if ct == 2 else 3
+        k0 = 2 if b0 == 1 else 0
+        kx = 0 if bx == 0 else 1 if bx == 1 else 2
+        k1 = 2 if b1 == 1 else 0
+        t0 = v.now
+        ext = aio.create_future()
+
+        def blocker():
+            v.now = v.now + kx
+
+        def complete_ext():
+            if not ext.done():          # (a cancelled waiter cancels the future it awaits)
+                ext.set_result(None)
+
+        def arm():
+            aio.call_at(t0 + c_d, complete_ext)
+            if kx:
+                aio.call_at(t0 + c_d, blocker)
+
+        async def co():
+            try:
+                if late:
+                    arm()
+                v.now = v.now + k0
+                await ext
+                v.now = v.now + k1
+                st["finished"] = v.now
+                st["fin_iter"] = aio.iteration
+            except asyncio.CancelledError:
+                st["cancelled"] = v.now
+                raise
+            if exc:
+                raise KeyError("co")
+            return 42
+
+        # observe the timeout callback (the only timer run_sync itself registers through IOLoop.call_at)
+        real_call_at = loop.call_at
+
+        def rec_call_at(when, callback, *a, **kw):
+            def observed():
+                st["tmo_iter"] = aio.iteration
+                st["tmo_at"] = v.now
+                return callback(*a, **kw)
+            return real_call_at(when, observed)
+
+        loop.call_at = rec_call_at
+        if not late:
+            arm()
+        try:
+            res = loop.run_sync(co, timeout=c_t)
+            err = None
+        except Exception as e:
+            res, err = None, e
+        assert not aio.deadlock, "run_sync left the loop running with nothing scheduled"
+        timed_out = type(err).__name__ == "TimeoutError"
+        if st["finished"] is not None:
+            # the function completed: its outcome must come back, whatever the timeout callback did
+            if st["tmo_iter"] is not None:
+                reached("finished_and_timeout_callback_ran")
+                if st["tmo_iter"] == st["fin_iter"]:
+                    reached("finished_in_same_batch_as_timeout")
+            if exc:
+                assert type(err) is KeyError, "completed function's exception replaced by %r (result %r)" % (err, res)
+            else:
+                assert err is None and res == 42, "completed function's result replaced by %r / %r" % (err, res)
+            assert st["cancelled"] is None
+        else:
+            assert timed_out, "unfinished function: expected TimeoutError, got %r / %r" % (err, res)
+            assert st["cancelled"] is not None, "TimeoutError without cancelling the function"
+            reached("timeout_cancels_pending")
+        if timed_out:
+            assert st["finished"] is None and st["cancelled"] is not None, "TimeoutError although the function completed"
+            assert st["tmo_at"] is not None and st["tmo_at"] >= t0 + c_t, "timeout fired before its deadline"
+        if k0 == 0 and kx == 0 and k1 == 0:
+            # loop never blocked: strict comparison of completion time and deadline decides
+            if c_d < c_t:
+                assert st["finished"] is not None, "function finishing before the deadline was timed out"
+            if c_d > c_t:
+                assert timed_out, "function finishing after the deadline was not timed out"
+            if c_d == c_t:
+                if late:
+                    assert timed_out, "timeout timer precedes the completion timer at the same deadline"
+                    reached("timeout_first_equal_deadline")
+                else:
+                    reached("completion_first_equal_deadline")
+        assert not px.log.errors, "unexpected error log: %r" % (px.log.errors,)
+        assert not v.exc_contexts, "exception escaped to the asyncio loop: %r" % (v.exc_contexts,)
